@@ -49,6 +49,7 @@ for k in (0, 1, 2):
 for nm in ("find_numbers_percent", "find_total_from_percent", "number_calc", "calc_percent", "convert_money", "money_money", "money_number"):
     add(H("REPLAY", "m_replay_" + nm, "verif_k::c05::m_replay_" + nm, "", kani=False))
 
+add(H("REPLAY", "d_dump_units", "verif_k::c12::d_dump_units", "", kani=False))
 add(H("REPLAY", "k_replay_session_reuse", "verif_k::c04::k_replay_session_reuse", "", kani=False))
 
 # ----------------------------------------------------------------------------- driver self tests
@@ -62,3 +63,24 @@ for prop in ("C01", "C04"):
           unwindset=SESSION_LOOPS, timeout=600, about="execute_session from the state set_text must leave (n = 1..4 lines, cursor 0), arbitrary per-line outcomes: status true, exactly n slots in order, cursor on the last line (set_text's own effect on the cursor: engine M m_set_text_cursor)"))
 add(H("C01", "c01_execute_session_empty", "verif_k::c04::execute_session_empty", "", stubs=("log", "fmt", "drop", "execute_text"),
       unwindset=SESSION_LOOPS, timeout=300, about="execute_session on a session without text: status false, no slots, no panic"))
+
+# ----------------------------------------------------------------------------- C02 parser (compositional) + glue
+PARSER_LOOPS = (MEMCMP, (r"parse_binary|match_operator|map_parser|verif_k|left_spine|missing_token_adder|contains|find|iter|position", 7))
+for n in (2, 3):
+    add(H("C02", "c02_fold_leaf_%d" % n, "verif_k::c02::fold_leaf", str(n), stubs=("log", "fmt", "drop"), unwindset=PARSER_LOOPS, timeout=900,
+          tiers=("quick", "thorough") if n == 2 else ("thorough",),
+          about="parse_binary::<Leaf> on n0 o n1 .. (%d symbolic operators from + - * /, symbolic accepted set {+,-} or {*,/}): left-nested chain over the maximal accepted prefix, operators and operands in order, cursor exactly behind it" % n))
+add(H("C02", "c02_ladder_levels", "verif_k::c02::ladder_levels", "", stubs=("log", "fmt", "drop"), unwindset=PARSER_LOOPS, timeout=900,
+      about="MultiplyDivideParser folds * / only and leaves + - to its caller; AddSubtractParser folds any of the four at the root: a o b with symbolic o through the real Unary/Primative parsers"))
+add(H("C02", "c02_precedence_three", "verif_k::c02::precedence_three", "", stubs=("log", "fmt", "drop"), unwindset=PARSER_LOOPS, timeout=1200,
+      about="7 o1 2 o2 4 for all 16 operator pairs through the real parser ladder and interpreter equals the value given by precedence and left associativity"))
+for b, nm in (("true", "left"), ("false", "right")):
+    add(H("C02", "c02_parens_%s" % nm, "verif_k::c02::parens_three", b, stubs=("log", "fmt", "drop"), unwindset=PARSER_LOOPS, timeout=1200,
+          about="parenthesised %s group of three operands, all 16 operator pairs: the group is evaluated first, all 7 tokens consumed" % nm))
+add(H("C02", "c02_sign_prefix_inner", "verif_k::c02::sign_prefix_inner", "", stubs=("log", "fmt", "drop"), unwindset=PARSER_LOOPS, timeout=1200,
+      expect="finding:C02-detached-sign", finding_match=("sign_prefix_inner",),
+      about="7 o1 (+|-) 2 o2 4: a detached sign negates its operand only and the rest of the line is still evaluated"))
+for n in (3, 4):
+    add(H("C02", "c02_glue_missing_%d" % n, "verif_k::c02::glue_missing_tokens", str(n), stubs=("log", "fmt", "drop"), unwindset=PARSER_LOOPS, timeout=900,
+          tiers=("quick", "thorough") if n == 3 else ("thorough",),
+          about="missing_token_adder on all operand/operator lists of length %d: '+' inserted exactly between adjacent operands, 0 before a leading operator" % n))
